@@ -287,12 +287,34 @@ fn collect_field<'a>(
                 .query_env
                 .extensions
                 .resolve(resolve_info, &mut resolve_fut)
-                .await?
-                .unwrap_or_default();
+                .await;
+            let res_value = match res_value {
+                Ok(value) => value.unwrap_or_default(),
+                Err(err) => {
+                    // A field error is recorded and turns the nearest nullable
+                    // position into null: the field itself if its type is nullable.
+                    let err = with_error_path(&ctx_field, err);
+                    if matches!(field_def.ty, TypeRef::NonNull(_)) {
+                        return Err(err);
+                    }
+                    ctx_field.add_error(err);
+                    Value::Null
+                }
+            };
             Ok((field.node.response_key().node.clone(), res_value))
         }
         .boxed(),
     );
+}
+
+/// Errors raised by resolvers carry no path yet; errors from below already
+/// carry the more specific path of the position that failed.
+fn with_error_path(ctx: &Context<'_>, err: ServerError) -> ServerError {
+    if err.path.is_empty() {
+        ctx.set_error_path(err)
+    } else {
+        err
+    }
 }
 
 fn collect_fields<'a>(
@@ -500,8 +522,19 @@ async fn resolve_list<'a>(
                 .query_env
                 .extensions
                 .resolve(resolve_info, &mut resolve_fut)
-                .await?;
-            Ok::<_, ServerError>(res_value.unwrap_or_default())
+                .await;
+            match res_value {
+                Ok(value) => Ok::<_, ServerError>(value.unwrap_or_default()),
+                Err(err) => {
+                    // A nullable item absorbs the error, a non-null item passes it on.
+                    let err = with_error_path(&ctx_item, err);
+                    if matches!(type_ref, TypeRef::NonNull(_)) {
+                        return Err(err);
+                    }
+                    ctx_item.add_error(err);
+                    Ok(Value::Null)
+                }
+            }
         });
     }
     let values = futures_util::future::try_join_all(futures).await?;
